@@ -53,7 +53,7 @@ override = ExitOverrider()
 
 def maybe(fn):
     def maybe_():
-        if (override.exitcode is None or override.exitcode == 0) and override.exception is None:
+        if (override.exitcode is None or (isinstance(override.exitcode, int) and override.exitcode == 0)) and override.exception is None:
             fn()
         else:
             print("*** Script returned with error, skipping proof generation", file=sys.stderr)
